@@ -26,7 +26,7 @@ class C01(pure.Spec):
             "answer sent afterwards, both directions at once, close by the target, close by the local client, refusing "
             "target, target closing completely during an upload after having half-closed, a slow half-closed target receiving a 3 MB upload, the two half-close orders in which the late direction must be delivered while the connection stays open, and local clients that give up while their stream request is in flight beside connections in progress; the client reaches the server through a relay that adds 15 ms to the server-to-client direction), 1-5 concurrent connections, chunk sizes 0..200 kB (several windows); UDP remote and SOCKS5 UDP "
             "association (own or shared association, IPv4, IPv6 and domain-name headers, one client alternating between two targets), 1-4 concurrent clients, datagram sizes "
-            "0..8 kB; and slow UDP clients whose datagrams are 3 s and 23 s apart (around and beyond the 10 s after which both ends forget an idle UDP client: active clients must stay registered, forgotten ones must be registered again), run beside the other cases; and reply bursts (the target answers one datagram with 300-600 replies back to back, more than the tunnel's reply queue holds: some may be dropped, the next exchange must work as before). Observed: bytes received at both ends compared byte by byte with the peer's stream, how each side "
+            "0..8 kB; and slow UDP clients whose datagrams are 3 s and 23 s apart (around and beyond the 10 s after which both ends forget an idle UDP client: active clients must stay registered, forgotten ones must be registered again), run beside the other cases, as does a long stream (5000 chunks of 2 KiB sent one by one) towards a local client with a small receive buffer that reads nothing for 6 s, so that the stream's receive window closes and back-pressure reaches the target; and reply bursts (the target answers one datagram with 300-600 replies back to back, more than the tunnel's reply queue holds: some may be dropped, the next exchange must work as before). Observed: bytes received at both ends compared byte by byte with the peer's stream, how each side "
             "saw the end (clean EOF / reset / still open after 6 s), per UDP client the replies that are its own, foreign "
             "or duplicate replies, the source address of replies, RFC 1928 header well-formedness, datagrams the target "
             "got. Compared exactly with what a direct connection shows (Tunnel/Direct.v); a UDP case whose only deviation is a "
@@ -60,6 +60,8 @@ class C01(pure.Spec):
             return "udp-slow/entry%d/n%d/gap%ds" % (t[2], t[3], t[4] // 1000)
         if t[1] == 4:
             return "udp-burst/entry%d/n%d" % (t[2], t[3])
+        if t[1] == 5:
+            return "tcp-stalled-reader/entry%d/n%d" % (t[2], t[3])
         return "udp/entry%d/shared%d/v%d/clients%d" % (t[2], t[3], t[4], t[5])
 
     def equal(self, case, impl, model):
@@ -69,7 +71,7 @@ class C01(pure.Spec):
             # an IPv6 variant on a machine without an IPv6 loopback: not run (its coverage cell is then absent)
             return True
         t = case.split()
-        if t[1] == "1":
+        if t[1] in ("1", "5"):
             return False
         # UDP is allowed to lose a datagram under load (the tunnel drops rather than blocks, C11): a case whose only
         # deviation is a missing reply is re-run (up to twice); a systematic loss repeats, a transient one does not
@@ -97,7 +99,7 @@ class C01(pure.Spec):
     def classify(self, case, impl, model):
         t = [int(x) for x in case.split()]
         i, m = [int(x) for x in impl.split()], [int(x) for x in model.split()]
-        if t[1] == 1:
+        if t[1] in (1, 5):
             for k in range(0, min(len(i), len(m)), 6):
                 a, b = i[k:k + 6], m[k:k + 6]
                 if a == b:
@@ -131,6 +133,8 @@ class C01(pure.Spec):
         t = [int(x) for x in case.split()]
         if t[1] == 1:
             return "TCP via %s (variant %d), %d connection(s): %s" % (ENTRY.get(t[2]), t[3], t[4], t[5:60])
+        if t[1] == 5:
+            return "TCP via %s: the target streams %d chunks of 2 KiB one by one to a local client that reads nothing for 6 s" % (ENTRY.get(t[2]), t[3])
         if t[1] == 4:
             return "UDP via %s: the target answers with a burst of %d replies, then one more exchange" % ("UDP remote" if t[2] == 0 else "SOCKS5 UDP association", t[3])
         if t[1] == 3:
